@@ -56,6 +56,10 @@ func DecodeSgpdSR(hdr BoxHeader, startPos uint64, sr bits.SliceReader) (Box, err
 		if descriptionLength == 0 {
 			return nil, fmt.Errorf("sgpd: invalid descriptionLength of 0")
 		}
+		if int(descriptionLength) > sr.NrRemainingBytes() {
+			// the entry decoders size their slices from the description length
+			return nil, fmt.Errorf("sgpd: descriptionLength %d exceeds the %d remaining bytes", descriptionLength, sr.NrRemainingBytes())
+		}
 		sgEntry, err := decodeSampleGroupEntry(b.GroupingType, descriptionLength, sr)
 		if err != nil {
 			return nil, err
